@@ -113,6 +113,10 @@ pub struct Outcome {
     pub getrandom_calls: u64,
     #[serde(default)]
     pub clock_reads: u64,
+    /// threads engine: how often the baton holder was found asleep in the kernel (a real
+    /// lock or channel) and the baton was given to somebody else
+    #[serde(default)]
+    pub ext_blocks: u64,
     #[serde(default)]
     pub log: Vec<String>,
     /// deadlock / step cap / scheduler failure
